@@ -441,9 +441,6 @@ def judge_pair(ctx, ok, case, spec, impl, model):
     if not impl["dict_same"]:
         ctx.violation("sidecar-unchanged", case, "loaded_dict differs after assembly")
     want = expected_series(spec, header, rows)
-    adj = any(re.search(r"\{(\w[\w\-]*)\}[\s,()]*\{\1\}", v) for e in case["sidecar"].values() if isinstance(e, dict)
-              for v in ([e.get("HED")] if isinstance(e.get("HED"), str) else
-                        list(e["HED"].values()) if isinstance(e.get("HED"), dict) else []) if isinstance(v, str))
     for i, (got, exp) in enumerate(zip(impl["series"][0], want)):
         cells = dict(zip(header, rows[i]))
         na_ref = [r for r in impl["refs"] if r in impl["columns"] and
@@ -453,7 +450,11 @@ def judge_pair(ctx, ok, case, spec, impl, model):
             ctx.count("row-with-absent-referenced-cell")
         if any(s["kind"] == "malformed" and cells.get(c) not in (None, "", "n/a") for c, s in spec.items()):
             ctx.count("row-malformed-column-passes-raw-cell")
-        sig = SIG_ADJ if adj and na_ref else None
+        # known family: the text selected for this row holds the same absent reference twice, delimiters between
+        chosen = [spec[c]["entry"]["HED"].get(cells.get(c)) if spec[c]["kind"] == "categorical" else spec[c]["entry"]["HED"]
+                  for c in impl["columns"] if c in spec and spec[c]["kind"] in ("categorical", "value")]
+        sig = SIG_ADJ if any(isinstance(v, str) and re.search(r"\{" + re.escape(r) + r"\}[\s,()]*\{" + re.escape(r) + r"\}", v)
+                             for v in chosen for r in na_ref) else None
         if norm(got) != norm(exp):
             ctx.violation("row-is-the-prescribed-annotation", {**case, "row": i}, {"got": got, "expected": exp},
                           signature=sig)
